@@ -17,6 +17,54 @@ CHECKS = {
         "operator vocabulary (class G). Assumes a secret is not a substring of text that does not depend on it; secrets non-empty, not starting with '$'. Not covered here: "
         "encrypt mode (see C10), selective mode (C14), operators absent from the grammar, the CLI flag wiring (C18).",
    ref="6/C01"),
+ "C02": dict(
+   text="Self-composition: every corpus template is bound to two lines that share all non-sensitive holes; the real redactor+serialiser is executed on both and the solver "
+        "shows the two emitted ropes equal for all pairs of literal assignments that keep the lexical class (unsat of out != out').",
+   note="Bounds: corpus as C01; quick tier additionally assumes non-empty literals (thorough lets either be empty). Class = leading-'$' status and the real IsEmail on both values; "
+        "numbers/booleans/IP vary only under their flag. Outside: encrypt, selective and field-name modes.",
+   ref="6/C02"),
+ "C03": dict(
+   text="The input line is parsed by an independent ordered parser written in the harness, the real RedactMongoLog/MarshalOrdered run on the same symbolic token stream, and the "
+        "solver shows for every feasible path: same node kinds, same keys in the same order, same array lengths, and emitted text == reference serialisation of the result tree.",
+   note="Bounds: C01 corpus plus odd-shape corpus (nulls, empty/nested arrays, unexpected value kinds under operators and under arbitrary keys of class F that may collide with the "
+        "operator vocabulary), no duplicate sibling keys (assumed), --redactFieldNames excluded. The JSON tokenizer itself is behind the Decoder contract (a line is its token stream).",
+   ref="6/C03"),
+ "C04": dict(
+   text="As C03, with the zone map written from the property text: every leaf outside the zones enabled by the (symbolic) flags, and every key, is shown equal to the input "
+        "(string contents, number texts, booleans) on every feasible path.",
+   note="Bounds: corpus + odd-shape corpus as C03; number texts are json.Number strings passed through by contract (UseNumber is observed: the decoder stub returns float64 without it).",
+   ref="6/C04"),
+ "C05": dict(
+   text="Per sensitive leaf and literal class the solver shows the output leaf equals the class placeholder ($date/$oid/$binary constants, e-mail placeholder for e-mail shaped input, "
+        "the symbolic --replacement text otherwise, 0 / false under the number / boolean flags) and subType is kept; validity of the constants (ISO instant, 24 hex, base64) is decided on the constants read from the SSA.",
+   note="Bounds: corpus as C01; quick tier assumes non-empty literals. 'E-mail shaped' = WHATWG regexp, length 3..254 (harness spec), identified with the tool's classifier only when the pattern texts are equal.",
+   ref="6/C05"),
+ "C12": dict(
+   text="With the flag on, every namespace-bearing leaf is shown equal to the documented pseudonym computed independently in the harness (component-wise SHA-256 prefix, same uninterpreted hash symbols), "
+        "no output segment depends on a database/collection name outside the hash, and a second run with the flag off is shown equal at every other position.",
+   note="Bounds: nsCorpus (all declared verbs, 6 envelopes, lines without command document, other components, $lookup/$graphLookup/$unionWith/$merge/$out string and document forms, nested sub-pipelines); "
+        "main collection name with <= 2 dots / leading '$'; number/boolean/IP switches fixed off. Two known findings are listed (string short forms; stages nested in sub-pipelines).",
+   ref="6/C12"),
+ "C13": dict(
+   text="HashName is executed on a symbolic name and replacement text; the solver shows equality with the documented form for all names within the split bounds, independence from the side table and call order, "
+        "'$' prefix irrelevance, and that equal pseudonyms of dot-free names force equal 8-byte digests (injectivity relative to the hash, all 8 bytes used).",
+   note="Bounds: <= 2 dots, <= 2 leading '$'. Outside: collision-freeness of truncated SHA-256 itself; cross-process stability rests on HashName reaching no clock/random/environment call (such a call aborts the path as unmodelled => inconclusive).",
+   ref="6/C13"),
+ "C14": dict(
+   text="Selective mode with a concrete regexp from a family; field names are symbolic and 'name matches R' is an uninterpreted predicate, so both outcomes are explored for every name on the path. "
+        "For each literal: some key on the path matches => class placeholder; none matches => leaf equal to input.",
+   note="Bounds: non-search corpus templates x 3 regexps (quick: rotating one per template). No obligation below dotted keys or next to a '$field' operand (not settled by the property text). Atlas Search stages excluded.",
+   ref="6/C14"),
+ "C15": dict(
+   text="Field-name mode with a symbolic configured prefix (solver explores equal / prefix / unrelated): when active every user key in the positions the property names equals the documented pseudonym, no such name "
+        "remains in any output segment, sibling counts/order are kept and values equal the flag-off run; when inactive the whole output equals the flag-off run.",
+   note="Bounds: find/update/delete/insert/findAndModify/aggregate templates of the corpus, single-component names. Sibling-count obligations whose only models need a SHA-256 prefix collision are reported as not reproduced (collision-freeness is outside). "
+        "NOT covered: the plan-summary rewriting clause (byte-level regexp scanning; not encoded yet).",
+   ref="6/C15"),
+ "C19": dict(
+   text="The emitted rope of the first pass is re-tokenised (decoder contract) and fed through the real redactor again with the same symbolic flags; the solver shows second output == first output on every path.",
+   note="Bounds: corpus + odd-shape corpus; quick assumes non-empty literals; replacement text not e-mail shaped and not starting with '$'; namespaces / field-name pseudonymisation off (as the property states).",
+   ref="6/C19"),
 }
 
 NOT_YET = {
